@@ -3,11 +3,12 @@ import asyncio
 import struct
 
 from sim.bus import SimTerminal, WireFaults
+from sim.loop import SimStall
 from sim.seams import Env
 
 PROPERTY = "C20"
 LEVEL = "exploration"
-SCENARIOS = {"nofault": 3, "faults": 2}
+SCENARIOS = {"nofault": 3, "faults": 2, "groups": 2}
 TIERS = {"quick": {"runs": 15000, "chunk": 50}, "thorough": {"runs": 50000000, "wall_s": 600, "chunk": 300, "recheck": 16}}
 RULE = ("one run = 1-2 simulated terminals with 1-4 FMMUs and 2-10 mapping tasks that "
         "enter and leave Terminal.map_fmmu(logical, write) contexts (single, or nested "
@@ -33,7 +34,177 @@ def fmmu_reg(term, i):
     return {"logical": lstart, "length": length, "phys": pstart, "type": typ, "active": act & 1}
 
 
+def run_groups(tape):
+    """the mappings as sync groups make them (what the documentation allows): 2-4 real slow
+    SyncGroups over 1-3 terminals that several of them read (at most one writes a terminal),
+    started and cancelled at drawn times; terminals may be found with an AL error or raise
+    one later. After every start and stop and in between: every process-data mapping of a
+    group that is cycling has its own active FMMU in the terminal (the FMMU register holds
+    the group's logical address), and the terminal's slot table says the same"""
+    from ebpfcat.ebpfcat import SyncGroup
+    from ebpfcat.ethercat import EtherCat, SyncManager
+    from . import wl_groups as wl
+    from .c21 import build_devices
+
+    env = Env(tape, faults=WireFaults(delay_buckets=(50e-6, 20e-6, 200e-6)))
+    world = env.world
+    ec = EtherCat("sim0")
+    specs = wl.gen_specs(tape, "c20g", max_terms=3, max_sz=6, allow_direct=False)
+    for sp in specs:
+        sp["n_fmmu"] = 2 + tape.draw("c20g/nfmmu", 4)
+        if not sp["in_sz"]:
+            sp["in_sz"] = 1 + tape.draw("c20g/in_sz", 4)
+    sims, terms = wl.build(env, ec, specs)
+    for st in sims:
+        st.al_error = tape.chance("c20g/al-start-error", 25)
+        st.al_code = 0x1a if st.al_error else 0
+        if tape.chance("c20g/al-error-later", 25):
+            poll_no = 3 + tape.draw("c20g/al-error-poll", 40)
+            cnt = [0]
+
+            def spont(cnt=cnt, poll_no=poll_no):
+                cnt[0] += 1
+                return 0x1b if cnt[0] == poll_no else 0
+            st.al_spontaneous_error = spont
+    ngroups = 2 + tape.draw("c20g/ngroups", 3)
+    violations = []
+    events = []
+
+    def viol(rule, detail, **params):
+        if not violations:
+            violations.append({"rule": rule, "params": params, "detail": detail})
+
+    writer_of = {}
+    groups = []
+    for gi in range(ngroups):
+        members = [k for k in range(len(specs)) if tape.chance("c20g/member", 70)] or [0]
+        links = []
+        for k in members:
+            links.append(dict(term=k, sm="in", pos=0, size="B"))
+            if specs[k]["out_sz"] and k not in writer_of and tape.chance("c20g/writes", 50):
+                writer_of[k] = gi
+                links.append(dict(term=k, sm="out", pos=0, size="B"))
+        g = dict(gi=gi, links=links, devices=build_devices(tape, terms, links, f"c20g/g{gi}"),
+                 sg=None, task=None, cycles=0, state="new")
+        groups.append(g)
+    max_live = [0]
+
+    def check(when):
+        live = [g for g in groups if g["state"] == "cycling" and not g["task"].done()]
+        max_live[0] = max(max_live[0], len(live))
+        for k, (t, st) in enumerate(zip(terms, sims)):
+            want = []       # (group, direction, logical address)
+            for g in live:
+                for sm, base in g["sg"].fmmu_maps.get(t, {}).items():
+                    want.append((g["gi"], "out" if sm == SyncManager.OUT else "in", base))
+            regs = [fmmu_reg(st, i) for i in range(st.n_fmmu)]
+            used_idx = set()
+            for gi, direction, base in want:
+                idx = [i for i, r in enumerate(regs) if r["active"] and r["logical"] == base
+                       and r["type"] == (2 if direction == "out" else 1)]
+                if not idx:
+                    viol("fmmu-shared",
+                         f"{when}: terminal {k}: the {direction} mapping of cycling group {gi} "
+                         f"(logical {base:#x}) has no active FMMU any more; registers "
+                         f"{[(r['logical'], r['type'], r['active']) for r in regs]}, slot "
+                         f"table {t.fmmu_used}", groups=True)
+                    return
+                if idx[0] in used_idx:
+                    viol("fmmu-shared", f"{when}: terminal {k} FMMU {idx[0]} serves two "
+                         f"mappings", groups=True)
+                    return
+                used_idx.add(idx[0])
+                if t.fmmu_used[idx[0]] != base:
+                    viol("slot-table-mismatch",
+                         f"{when}: terminal {k} FMMU {idx[0]} is active for group {gi} "
+                         f"(logical {base:#x}) but the slot table holds {t.fmmu_used}",
+                         groups=True)
+                    return
+
+    async def run_group(g):
+        await asyncio.sleep([0, 1e-3, 5e-3, 20e-3][tape.draw("c20g/start", 4)])
+        for session in range(1 + tape.draw("c20g/sessions", 2)):
+            sg = g["sg"] = SyncGroup(ec, g["devices"])
+            orig = sg.update_devices
+
+            def update_devices(data, g=g, orig=orig):
+                g["cycles"] += 1
+                if g["state"] == "starting":
+                    g["state"] = "cycling"
+                    events.append(("cycling", g["gi"]))
+                    check(f"group {g['gi']} started cycling")
+                return orig(data)
+            sg.update_devices = update_devices
+            g["state"] = "starting"
+            try:
+                g["task"] = sg.start()
+            except Exception as e:
+                events.append(("refused", g["gi"], type(e).__name__))
+                g["state"] = "failed"
+                return
+            hold = [5e-3, 20e-3, 60e-3][tape.draw("c20g/hold", 3)]
+            done, pending = await asyncio.wait([g["task"]], timeout=hold)
+            if done:
+                # start-up failed (no free FMMU: refused; AL error: EtherCatError)
+                e = None if g["task"].cancelled() else g["task"].exception()
+                events.append(("ended", g["gi"], type(e).__name__))
+                world.count(f"c20g/group-ended-{type(e).__name__}")
+                g["state"] = "failed"
+            else:
+                check(f"before group {g['gi']} is stopped")
+                g["state"] = "stopping"
+                g["task"].cancel()
+                await asyncio.wait([g["task"]], timeout=1.0)
+                g["state"] = "stopped"
+                events.append(("stopped", g["gi"]))
+            check(f"after group {g['gi']} ended")
+            await asyncio.sleep([1e-3, 5e-3][tape.draw("c20g/gap", 2)])
+
+    async def main(loop):
+        await ec.connect()
+        tasks = [asyncio.ensure_future(run_group(g)) for g in groups]
+        t = 0.0
+        while not all(x.done() for x in tasks) and t < 1.0:
+            await asyncio.sleep(3e-3)
+            t += 3e-3
+            check(f"t={t * 1e3:.0f} ms")
+        for x in tasks:
+            if x.done() and not x.cancelled() and x.exception() is not None:
+                e = x.exception()
+                viol("mapping-raised", f"{type(e).__name__}: {e}", exception=type(e).__name__,
+                     groups=True)
+            x.cancel()
+        for g in groups:
+            if g["task"] is not None:
+                g["task"].cancel()
+        await asyncio.sleep(5e-3)
+        for k, t in enumerate(terms):
+            if any(x is not None for x in t.fmmu_used):
+                viol("slot-not-freed", f"terminal {k}: table {t.fmmu_used} after all groups "
+                     f"ended", groups=True)
+
+    with env:
+        try:
+            env.run(main)
+        except SimStall as e:
+            viol("did-not-finish", str(e), groups=True)
+        for m, tn, txt in env.loop_exceptions():
+            if tn != "CancelledError":
+                viol("library-task-died", f"{m}: {tn}: {txt}", exception=tn, groups=True)
+    world.count("c20/max-live", max_live[0])
+    return {
+        "violations": violations, "stats": dict(world.counters),
+        "digest": world.digest.hexdigest(), "sim_time": world.now,
+        "schedule": repr(events), "nontrivial": max_live[0] >= 2,
+        "sample": {"scenario": "groups", "terminals": [s.n_fmmu for s in sims],
+                   "groups": [[(l["term"], l["sm"]) for l in g["links"]] for g in groups],
+                   "events": events[:24], "max_live": max_live[0]},
+    }
+
+
 def run(tape, scenario):
+    if scenario == "groups":
+        return run_groups(tape)
     from ebpfcat.ethercat import EtherCat, EtherCatError, Terminal
 
     faults = scenario == "faults"
